@@ -97,6 +97,12 @@ def contract_call(ip, f, q, con, arguments):
     """modular call: assert pre; havoc frame; assume post."""
     c = ip.c
     c.task.note_function(q, None, inlined=False)
+    arguments = dict(arguments)
+    for pn, ty in con.params.items():
+        v = arguments.get(pn)
+        if isinstance(ty, str) and isinstance(v, Sym) and v.t.sort() == Val and not ty.startswith("opt:") and ty != "val":
+            c.prove(f"{ip.frames[-1].qual}/call:{q.split(':')[1]}/arg-type:{pn}", c.ty_fact(v.t, ty), kind="call-pre")
+            arguments[pn] = c.narrow(v.t, ty)
     a = spec_args(ip, arguments)
     s0 = SV(c.heap.snapshot())
     pre = con.requires(s0, **a) if con.requires else True
@@ -155,9 +161,11 @@ def _havoc_frame(ip, con, s0, a):
         old = c.heap.get(arr)
         new = c.fresh("cw_" + arr.replace(":", "_"), arr_sort(arr))
         c.write_array(arr, new)
-        if con.mod is not None:
-            m = con.mod(s0, r, **a)
-            c.assume(z3.ForAll([r], z3.Implies(z3.And(r > 0, r < s0.top, z3.Not(m)), new[r] == old[r]), patterns=[new[r]]))
+        from .task import mod_of
+        mf = mod_of(con, arr)
+        if mf is not None:
+            m = mf(s0, r, **a)
+            c.assume(smt.forall_pat([r], z3.Implies(z3.And(r > 0, r < s0.top, z3.Not(m)), new[r] == old[r]), new, r))
         # objects beyond the old top were unallocated: nothing is known about them anyway
 
 
